@@ -44,7 +44,7 @@ type workload struct {
 	YieldEvery int
 	BigValues  bool // some calls carry a string attribute of several KB (the pooled buffers must grow)
 	Blanks     bool // some calls are blank Print/Println (delivered as a bare newline)
-	OddLevels  bool // some calls use unregistered numeric levels (one per goroutine)
+	OddLevels  bool // some calls use custom levels registered at run time (one per goroutine, negative values, treated as Info)
 	BareCalls  bool // some calls are plain verb methods with a message and no argument at all (the logger's attributes are the record's)
 	Override   bool // some calls pass a group of their own under the key of the logger-level shared group (the call's group wins)
 }
@@ -99,6 +99,13 @@ type expectation struct {
 
 func run(t *rapid.T, test string, wl workload) {
 	defer vlib.Canon()()
+	if wl.OddLevels {
+		// the custom levels the goroutines use are registered before anybody logs (registration while logging is a
+		// reconfiguration, outside the claim); an Info logger admits them as the Info they are treated as
+		for g := 0; g < wl.G; g++ {
+			_ = slog.RegisterLevel(slog.Level(-100-g), fmt.Sprintf("odd%d", g), slog.RegWithTreatedAsLevel(slog.InfoLevel))
+		}
+	}
 	old := runtime.GOMAXPROCS(wl.Procs)
 	defer runtime.GOMAXPROCS(old)
 
@@ -237,7 +244,7 @@ func run(t *rapid.T, test string, wl workload) {
 			return c // through log/slog only the four standard levels are used, with no per-call attributes
 		}
 		if wl.OddLevels && (h>>16)%4 == 0 {
-			c.sev, c.admit = slog.Level(-100-g), true // unregistered, one value per goroutine; numerically admitted by an Info logger
+			c.sev, c.admit = slog.Level(-100-g), true // one custom level per goroutine, registered (treated as Info) before the workload starts
 		}
 		if wl.Blanks && (h>>24)%6 == 0 {
 			c.sev, c.admit, c.blank = slog.AlwaysLevel, true, true
